@@ -130,6 +130,14 @@ func (nd *node) dirNames() []string {
 	return names
 }
 
+// isDir reports whether the node is a directory.
+func (nd *node) isDir() bool {
+	nd.mu.RLock()
+	defer nd.mu.RUnlock()
+
+	return nd.mode.IsDir()
+}
+
 // remove deletes the content of a node.
 func (nd *node) remove() {
 	nd.children = nil
